@@ -103,6 +103,8 @@ def cases(tier, seed):
     add("frame.args", dict(fn="partial_transpose", sys=[1], rdims=[2, 3], cdims=[2, 3], dimform="1row-array"), "frame/partial_transpose")
     for rd, cd in (([2, 3], [3, 2]), ([2, 2], [2, 2]), ([3, 2], [2, 4])):
         add("frame.args", dict(fn="realignment", rdims=rd, cdims=cd), "frame/realignment")
+    for dt in ("int8", "uint8", "int32", "bool"):
+        add("int_dtype", dict(dtype=dt, dims=[2, 3], sys=[0], only="partial_transpose"), "int_dtype/%s" % dt)
     # realignment
     for dA, dB, dA2, dB2 in itertools.product([2, 3, 4], repeat=4):
         if dA * dB > 12 or dA2 * dB2 > 12:
